@@ -96,9 +96,10 @@ fn resolve_min(sel: MinSel, cur: usize) -> Option<usize> {
 }
 
 fn op_strategy() -> BoxedStrategy<Op> {
-    let sz = prop_oneof![3 => 1u32..200, 2 => 4000u32..9000, 1 => 20_000u32..70_000, 1 => 900_000u32..1_300_000];
+    // 0 = exactly up to the region's reservation (a region that is full to the last reserved byte)
+    let sz = prop_oneof![1 => Just(0u32), 3 => 1u32..200, 2 => 4000u32..9000, 1 => 20_000u32..70_000, 1 => 900_000u32..1_300_000];
     prop_oneof![
-        2 => (0u8..6, 1u16..3000, any::<u8>()).prop_map(|(name, len, pat)| Op::CreateRegion { name, len, pat }),
+        2 => (0u8..6, prop_oneof![4 => 1u16..3000, 1 => Just(4096u16)], any::<u8>()).prop_map(|(name, len, pat)| Op::CreateRegion { name, len, pat }),
         4 => (any::<u16>(), sz, any::<u8>()).prop_map(|(r, len, pat)| Op::Write { r, len, pat }),
         2 => Just(Op::Flush),
         2 => Just(Op::AddClone),
@@ -385,7 +386,14 @@ fn run_case(case: &Case, obs: &mut Obs) -> Result<(), String> {
                     continue;
                 }
                 let Some((name, reg)) = st.pick_region(*r) else { continue };
-                let data = pat_bytes(*pat, st.wc, *len as usize);
+                let len = if *len == 0 {
+                    let m = reg.meta();
+                    let room = (m.reserved() - m.len()) as usize;
+                    if room == 0 { m.reserved() as usize } else { room }
+                } else {
+                    *len as usize
+                };
+                let data = pat_bytes(*pat, st.wc, len);
                 st.wc += data.len() + 13;
                 reg.write(&data).map_err(|e| format!("{ctx}: {e}"))?;
                 st.model.get_mut(&name).unwrap().extend_from_slice(&data);
